@@ -722,7 +722,8 @@ void run_solo(uint64_t seed, uint64_t index) {
   if (accessor_style) {
     struct MA { Accessor acc; bool valid = false; int depth = 0; uint64_t g = 0; };
     int n = int(r.range(1, 12));
-    std::vector<MA> as(size_t(n));
+    const size_t na = size_t(n);
+    std::vector<MA> as(na);
     size_t live = 0, peak = 0;
     for (int op = 0; op < nops && !vf::failed(); ++op) {
       MA& a = as[r.below(as.size())];
@@ -790,7 +791,8 @@ void run_solo(uint64_t seed, uint64_t index) {
     as.clear();
   } else {
     int n = int(r.range(1, 5));
-    std::vector<Worker> ws(size_t(n));
+    const size_t nw = size_t(n);
+    std::vector<Worker> ws(nw);
     std::vector<int> depth(size_t(n), 0);
     std::vector<uint64_t> g(size_t(n), 0);
     for (int k = 0; k < n; ++k) {
